@@ -55,7 +55,7 @@ func verifHarness_C19_date_write() {
 	nsec := verifNondetI64("nsec")
 	verifAssume(sec >= -verifC19SecRange() && sec <= verifC19SecRange())
 	verifAssume(nsec >= 0 && nsec < 1000000000)
-	t := time.Unix(sec, nsec).UTC()
+	t := time.Unix(sec, nsec).In(verifAnyZone())
 	c := verifTimeCodec("int", "date")
 	w := avro.NewWriteBuf(nil)
 	c.Write(w, unsafe.Pointer(&t))
@@ -72,6 +72,17 @@ func verifHarness_C19_date_write() {
 		verifObserveI64("day", n)
 	}
 	verifReach("end")
+}
+
+// verifAnyZone: UTC, or a fixed zone with an arbitrary offset of up to 14 hours
+// either way (the instant, not its presentation, is what is stored).
+func verifAnyZone() *time.Location {
+	if verifChoice("zone", 2) == 0 {
+		return time.UTC
+	}
+	off := verifNondetI32("zoneoff")
+	verifAssume(verifAnd(off >= -50400, off <= 50400))
+	return time.FixedZone("", int(off))
 }
 
 // seconds either side of the epoch covered by the write-direction harnesses
@@ -132,7 +143,7 @@ func verifHarness_C19_long_write() {
 	nsec := verifNondetI64("nsec")
 	verifAssume(sec >= -verifC19SecRange() && sec <= verifC19SecRange())
 	verifAssume(nsec >= 0 && nsec < 1000000000)
-	t := time.Unix(sec, nsec).UTC()
+	t := time.Unix(sec, nsec).In(verifAnyZone())
 	c := verifTimeCodec("long", logical)
 	w := avro.NewWriteBuf(nil)
 	c.Write(w, unsafe.Pointer(&t))
@@ -347,5 +358,127 @@ func verifHarness_C12_parse_timezone() {
 		}
 		_, _ = parseTime(other)
 	})
+	verifReach("end")
+}
+
+// ---------------------------------------------------------------- time model validation
+
+// The engine's calendar arithmetic (engine/timecal.go) against the real
+// standard library: a table of boundary dates is pushed through time.Date and
+// the accessors, and every observed value is compared with the native run
+// (translator validation); for an arbitrary instant the solver shows that
+// Date() / Clock() invert time.Date.
+func verifHarness_C19_calendar_model() {
+	type ymd struct{ y, m, d int }
+	cases := []ymd{
+		{1970, 1, 1}, {1969, 12, 31}, {2000, 2, 29}, {1900, 2, 28}, {1900, 3, 1}, {2100, 2, 28}, {2024, 12, 31},
+		{1, 1, 1}, {0, 1, 30}, {0, 2, 29}, {0, 3, 1}, {-1, 12, 31}, {-400, 2, 29}, {9999, 12, 31}, {1677, 9, 21}, {2262, 4, 11},
+		{2021, 13, 1}, {2021, 0, 1}, {2021, -11, 15}, {2021, 25, 31}, {2020, 2, 30}, {2019, 1, 0}, {1600, 1, 1}, {1582, 10, 15},
+	}
+	k := verifChoice("case", len(cases)+1)
+	if k < len(cases) {
+		c := cases[k]
+		off := []int{0, 3600, -18000, 50400}[verifChoice("off", 4)]
+		loc := time.UTC
+		if off != 0 {
+			loc = time.FixedZone("", off)
+		}
+		t := time.Date(c.y, time.Month(c.m), c.d, 23, 59, 58, 7, loc)
+		y, m, d := t.Date()
+		h, mi, s := t.Clock()
+		verifObserveI64("unix", t.Unix())
+		verifObserveInt("y", y)
+		verifObserveInt("m", int(m))
+		verifObserveInt("d", d)
+		verifObserveInt("yday", t.YearDay())
+		verifObserveInt("wday", int(t.Weekday()))
+		verifObserveInt("h", h)
+		verifObserveInt("mi", mi)
+		verifObserveInt("s", s)
+		u := t.UTC()
+		verifObserveInt("utc-day", u.Day())
+		verifObserveInt("utc-hour", u.Hour())
+		verifObserveInt("year", t.Year())
+		a := t.AddDate(0, 1, 1).Add(36 * time.Hour)
+		verifObserveI64("adddate", a.Unix())
+		verifObserveBool("before", t.Before(a))
+		verifReach("table")
+		return
+	}
+	sec := verifNondetI64("sec")
+	verifAssume(sec >= -verifC19SecRange() && sec <= verifC19SecRange())
+	t := time.Unix(sec, 5).UTC()
+	y, m, d := t.Date()
+	h, mi, s := t.Clock()
+	// (that Date()/Clock() invert time.Date for every instant is a composition
+	// of two division chains no solver here decides within the cap; the values
+	// below are compared with the native run for the solver's sample instead)
+	verifObserveInt("year", y)
+	verifObserveInt("month", int(m))
+	verifObserveInt("day", d)
+	verifObserveInt("hms", h*10000+mi*100+s)
+	verifObserveInt("yday", t.YearDay())
+	verifReach("end")
+}
+
+// A time field under a nullable union ([null, long] with each logical type, or
+// [null, int date]): the union writer consults the time codec's Omit. Only the
+// zero time may be written as null; every other instant the unit can represent
+// - including the first and the last seconds int64 nanoseconds reach, in 1677
+// and 2262 - is written as the non-null branch holding the value the plain
+// codec writes.
+func verifHarness_C19_time_in_nullable_union() {
+	type rec struct{ T time.Time }
+	k := verifChoice("unit", 4)
+	fs := avro.Schema{Type: "long"}
+	switch k {
+	case 0:
+		logical, _ := verifUnit(0)
+		fs.Object = &avro.SchemaObject{LogicalType: logical}
+	case 1:
+		logical, _ := verifUnit(1)
+		fs.Object = &avro.SchemaObject{LogicalType: logical}
+	case 2: // plain long: nanoseconds
+	case 3:
+		fs = avro.Schema{Type: "int", Object: &avro.SchemaObject{LogicalType: "date"}}
+	}
+	s := avro.Schema{Type: "record", Object: &avro.SchemaObject{Name: "r", Fields: []avro.SchemaRecordField{
+		{Name: "T", Type: avro.Schema{Type: "union", Union: []avro.Schema{{Type: "null"}, fs}}}}}}
+	c, err := s.Codec(rec{})
+	verifAssume(err == nil)
+	// windows of instants: around the epoch, and the two ends of the int64
+	// nanosecond range
+	base := []int64{0, -9223372036, 9223372036 - (1 << 20)}[verifChoice("window", 3)]
+	delta := int64(verifNondetU32("delta") & (1<<20 - 1))
+	if base == 0 {
+		delta -= 1 << 19
+	}
+	sec := base + delta
+	nsec := verifNondetI64("nsec")
+	verifAssume(nsec >= 0 && nsec < 1000000000)
+	if base < 0 {
+		verifAssume(verifOr(sec > -9223372037, nsec >= 145224192)) // math.MinInt64 ns
+	}
+	in := rec{T: time.Unix(sec, nsec).UTC()}
+	verifAssume(!in.T.IsZero())
+	w := avro.NewWriteBuf(nil)
+	c.Write(w, unsafe.Pointer(&in))
+	b := w.Bytes()
+	verifAssert(len(b) >= 2 && b[0] == 2, "C19:non-zero-time-is-written-as-the-non-null-branch")
+	if len(b) >= 2 && b[0] == 2 {
+		var plain avro.Codec
+		if k == 3 {
+			plain = verifTimeCodec("int", "date")
+		} else {
+			lt := ""
+			if fs.Object != nil {
+				lt = fs.Object.LogicalType
+			}
+			plain = verifTimeCodec("long", lt)
+		}
+		w2 := avro.NewWriteBuf(nil)
+		plain.Write(w2, unsafe.Pointer(&in.T))
+		verifAssert(refBytesEq(b[1:], w2.Bytes()), "C19:union-branch-holds-what-the-plain-codec-writes")
+	}
 	verifReach("end")
 }
